@@ -47,6 +47,28 @@ theorem roundMemory_spec (m p : Nat) (hp : 0 < p) :
     have : q * (4 * p) < 8 * p := by omega
     rw [if_pos this]
 
+/-- **memory rule at the code's widths**: the uint32 / uint8 computation of deriveKey
+    (`memory / (syncPoints*uint32(threads)) * (syncPoints*uint32(threads))`, floor `2*syncPoints*uint32(threads)`,
+    threads widened before multiplying) never wraps for threads ≤ 255 and equals `roundMemory` -/
+theorem roundMemoryGo_eq (m p : Nat) (hm : m < 4294967296) (hp1 : 1 ≤ p) (hp : p ≤ 255) :
+    (roundMemoryGo (UInt32.ofNat m) (UInt8.ofNat p)).toNat = roundMemory m p := by
+  unfold roundMemoryGo roundMemory
+  simp only []
+  have e1 : (UInt8.ofNat p).toUInt32.toNat = p := by
+    rw [UInt8.toNat_toUInt32, UInt8.toNat_ofNat']; omega
+  have e4 : (4 * (UInt8.ofNat p).toUInt32).toNat = 4 * p := by
+    rw [UInt32.toNat_mul, e1]; show 4 * p % 4294967296 = _; omega
+  have e8 : (2 * 4 * (UInt8.ofNat p).toUInt32).toNat = 8 * p := by
+    rw [UInt32.toNat_mul, e1]; show 8 * p % 4294967296 = _; omega
+  have em : (UInt32.ofNat m).toNat = m := by rw [UInt32.toNat_ofNat']; omega
+  have hle : m / (4 * p) * (4 * p) ≤ m := Nat.div_mul_le_self _ _
+  have eq : (UInt32.ofNat m / (4 * (UInt8.ofNat p).toUInt32) * (4 * (UInt8.ofNat p).toUInt32)).toNat =
+      m / (4 * p) * (4 * p) := by
+    rw [UInt32.toNat_mul, UInt32.toNat_div, e4, em]; omega
+  by_cases h : m / (4 * p) * (4 * p) < 8 * p
+  · rw [if_pos (by rw [UInt32.lt_iff_toNat_lt, eq, e8]; exact h), if_pos h, e8]
+  · rw [if_neg (by rw [UInt32.lt_iff_toNat_lt, eq, e8]; exact h), if_neg h, eq]
+
 /-! ## H0 and H′ -/
 
 /-- H0 is BLAKE2b-512 of LE32(p)‖LE32(T)‖LE32(m)‖LE32(t)‖LE32(0x13)‖LE32(y)‖LE32(|P|)‖P‖LE32(|S|)‖S‖
